@@ -906,6 +906,7 @@ def conv_cases(chk):
         (3, [("h", [1]), ("swap", [0, 2]), ("cx", [1, 0]), ("swap", [2, 1])]),
         (3, [("h", [2]), ("cx", [2, 1])]),
         (4, [("h", [3]), ("cx", [3, 1]), ("x", [0])]),
+        (2, [("dg", [0], [0.7, -1.2]), ("h", [1]), ("dg", [1], [0.0, 1.1]), ("dg", [0], [0.4, 0.0])]),
     ]
     if chk.thorough:
         shapes.append((4, [("h", [1]), ("cx", [1, 3]), ("cx", [2, 0])]))
@@ -976,9 +977,12 @@ def handle_tables(chk, pool, items, fixed):
     reqs, costs = [], []
     for label, case, ob, g, tol, sigp in items:
         n_ph = photons(ob)
-        reqs.append(table_request(ob, g, want_leak=True, spec=n_ph <= 5))
+        want_leak = chk.thorough or n_ph <= 6      # quick tier: no leakage enumeration above 6 photons (cost)
+        reqs.append(table_request(ob, g, want_leak=want_leak, spec=n_ph <= 5))
         q = len(ob["qubits"])
-        costs.append((2.0 ** n_ph if n_ph > 6 else math.factorial(n_ph) / 8) * 4 ** q * (1 + math.comb(3 * q - 1, q) / 2 ** q))
+        chk.count("leakage_enumerated", want_leak)
+        costs.append((2.0 ** n_ph if n_ph > 6 else math.factorial(n_ph) / 8) * 4 ** q *
+                     (1 + (math.comb(3 * q - 1, q) / 2 ** q if want_leak else 0)))
         chk.count("evaluation", "ryser(validated)" if n_ph > 6 else "laplace(proved)")
     reps = pool.ask_many(reqs, costs)
     for (label, case, ob, g, tol, sigp), rep in zip(items, reps):
@@ -1033,6 +1037,12 @@ def run(chk: core.Check):
     pcvl.random_seed(chk.seed)
     pool = Pool(chk, chk.pick(8, 12))
     try:
+        phase = chk.extra.setdefault("phase_s", {})
+        t_ph = [time.time()]
+
+        def lap(name):
+            phase[name] = round(time.time() - t_ph[0], 1)
+            t_ph[0] = time.time()
         fixed = detect_fixed(pool)
         chk.extra["labelling_rule_of_tree"] = "all two-qubit gates (repaired)" if fixed else "CNOTs only (pinned)"
         # --- corpus first
@@ -1068,15 +1078,20 @@ def run(chk: core.Check):
                      nontrivial=bool(ob["heralds"]) or bool(case["kw"]),
                      sample={"gate": nm, "kw": case["kw"], "modes": ob["m"], "heralds": ob["heralds"]})
             items.append((f"catalog[{nm!r}]({case['kw']})", case, ob, g, TOL, "catalog-" + nm.replace(" ", "-")))
+        lap("catalog-python")
         handle_tables(chk, pool, items, fixed)
+        lap("catalog-lean")
         # --- converter bookkeeping, exactly
         check_labelling(chk, pool, fixed)
+        lap("labelling")
         check_swap_modemap(chk, pool)
+        lap("swap-modemap")
         # --- converted circuits
         items = []
         plan_reqs, plan_meta = [], []
         for case in conv_cases(chk):
             handle_conv_case(chk, case, items, plan_reqs, plan_meta, fixed)
+        lap("convert-python")
         for (case, real), rep in zip(plan_meta, pool.ask_many(plan_reqs)):
             model = (rep.get("kinds"), rep.get("heralds"))
             kinds = [k for k in (model[0] or []) if k in TWOQ_COMPONENTS]
@@ -1085,6 +1100,7 @@ def run(chk: core.Check):
                          f"{case['fw']} {[(o['g'], o['q']) for o in case['ops']]} ups={case['ups']}: components/heralds "
                          f"{real}, model {(kinds, model[1])}", case)
         handle_tables(chk, pool, items, fixed)
+        lap("convert-lean")
         # --- malformed stream: unsupported gates are rejected with the class the dispatch model predicts
         for fw, n, ops, want in MALFORMED:
             chk.branch("malformed")
